@@ -27,6 +27,7 @@ structure St where
   value : Nat := 0
   subs : List Sub := []
   hist : List Nat := []     -- stress: the variable's value history given by a `vhist` line
+  ref : Option (List Mut) := none   -- stress: the notes of the set's reference subscription (`sref` line)
 
 def init : St := {}
 
@@ -122,28 +123,34 @@ def judgeVar (st : St) (act fin : String) (evs : List String) : String :=
     if why != "accept" then why
     else if st.hist.isEmpty then "accept"
     else
-      let ns := notes es
-      let ps := pairs st.hist
-      if isInfix ns ps || isInfix (ns.drop 1) ps then "accept" else "reject not-a-run-of-the-history"
+      if runOfHistory (notes es) st.hist then "accept" else "reject not-a-run-of-the-history"
   | _, _, _ => "bad-op"
 
-def judgeSet (act fin : String) (evs : List String) : String :=
+/-- `sref …` (the reference subscription of a stress round) / `ssub …`: the C13 predicate for a Set
+subscription, plus "exactly once, in order" against the reference when one was given. -/
+def judgeSet (st : St) (isRef : Bool) (act fin : String) (evs : List String) : St × String :=
   match parseActive act, parseSet fin, evs.mapM parseSetEv with
-  | some a, some f, some es => setWhy a f es
-  | _, _, _ => "bad-op"
+  | some a, some f, some es =>
+    let why := setWhy a f es
+    if isRef then ({ st with ref := some (notes es) }, why)
+    else if why != "accept" then (st, why)
+    else match st.ref with
+      | none => (st, "accept")
+      | some ref => (st, if runOfReference a (notes es) ref then "accept" else "reject not-a-run-of-the-reference")
+  | _, _, _ => (st, "bad-op")
 
 /-! ### the driver step -/
 
 def stepLine (st : St) (toks : List String) : St × String :=
   match toks with
-  | "stress" :: _ => ({ st with hist := [] }, "ok")
+  | "stress" :: _ => ({ st with hist := [], ref := none }, "ok")
   | "vhist" :: vs =>
     match vs.mapM (·.toNat?) with
     | some h => ({ st with hist := h }, "ok")
     | none => (st, "bad-op")
   | "vsub" :: act :: fin :: evs => (st, judgeVar st act fin evs)
-  | "ssub" :: act :: fin :: evs => (st, judgeSet act fin evs)
-  | "sref" :: act :: fin :: evs => (st, judgeSet act fin evs)
+  | "ssub" :: act :: fin :: evs => judgeSet st false act fin evs
+  | "sref" :: act :: fin :: evs => judgeSet st true act fin evs
   | ["newset", els] =>
     match parseSet els with
     | some l => ({ kind := .set, contents := l }, "ok")
